@@ -450,6 +450,22 @@ func genC18(tier string, r *rng) {
 		run(fmt.Sprintf("rst cr %s %s %s %s %d", hx(m1), hx(h), hx(m2), hx(af), 1+r.intn(5)))
 		run(fmt.Sprintf("rst cwr %s %s %s %s", hx(m1), hx(h), hx(m2), hx(af)))
 	}
+	// special keys on either side of the Reset: the all-zero key (what the library's own client side may draw, and
+	// what a mask reader built for an unmasked source holds), the same key again, four equal bytes; with and
+	// without earlier traffic, at every residue of the earlier byte count
+	skeys := []string{"00000000", "01020304", "5a5a5a5a", "ff807f0a"}
+	for _, k1 := range skeys {
+		for _, k2 := range skeys {
+			for _, hl := range []int{0, 1, 2, 3, 4} {
+				if tier == "quick" && hl > 1 && (k1 != k2 && k1 != "00000000") {
+					continue
+				}
+				af := r.bytes(9 + hl)
+				run(fmt.Sprintf("rst cr %s %s %s %s %d", k1, hx(r.bytes(hl)), k2, hx(af), 1+hl%3))
+				run(fmt.Sprintf("rst cwr %s %s %s %s", k1, hx(r.bytes(hl)), k2, hx(af)))
+			}
+		}
+	}
 	// wsflate.Writer with a scripted compressor: clean / unflushed / bad tail / destination error histories
 	tail := "0000ffff"
 	fh := []string{"-", "w010203/;f", "w0102030405/2", "w01/;f;w02/", "w01/;c", "f"}
